@@ -6,7 +6,7 @@ import sup
 RULE = ("one case = one generated table: schema of 1..24 fields over all 9 field types (8/16/32-bit signed/unsigned, float, bool, string), arrays of 2..8, "
         "key field first/middle/last/absent x uint32/int32, record count in {0,1,2,3,17,255,256,1000,9999,10000}, keys sorted/unsorted/duplicate/sparse-extreme "
         "(negative for int32), strings from a pool with the empty string, duplicates, suffix pairs and non-ASCII UTF-8; cases 0..6 are fixed minimal tables. "
-        "The harness's own WDBC encoder (4 string-block layouts: deduplicated, shuffled with unreferenced strings, duplicated copies, suffix-shared) writes the table; "
+        "The harness's own WDBC encoder (5 string-block layouts: deduplicated, shuffled with unreferenced strings, duplicated copies, suffix-shared, packed without the NUL in front) writes the table; "
         "DbcParser eager (+ cached strings), LazyDbcParser iterator and indexed, MmapDbcFile (parser and lazy over the mapping), parse_records_parallel must each "
         "return the model's values (floats bitwise, strings as text) and agree pairwise; DbcWriter::write_records of a parsed set is re-parsed and compared with the "
         "model, its size checked against 20 + n x record_size + string block and its string block walked for repeated strings; once that single write is right the writer "
@@ -15,7 +15,16 @@ RULE = ("one case = one generated table: schema of 1..24 fields over all 9 field
         "rewritten through the same handle): the stream must start with the table written last and be exactly that long unless longer content was there before "
         "(all six histories for tables up to 300 records, two of them for larger ones); get_record_by_key and "
         "create_sorted_key_map + get_record_by_key_binary_search are queried for every present key and ~100 absent keys on the eager, parallel, mmap and rewritten sets. "
-        "quick = 7 + 300 tables, thorough = 7 + 10000 tables plus the first 1000 again under AddressSanitizer. distinct = distinct "
+        "Round 8: the schema's key field is declared by index, set_key_field(name) or try_set_key_field(name) in turn (unknown names must be refused / panic as documented and leave the key alone); "
+        "Record::get_value_by_name against get_value on eager, lazy and parallel records (unique names: the value at the field's index; a second eager parse with repeating names "
+        "f0,f1,f2,f0,..: a value of a field carrying that name; unknown name / index past the end: nothing); StringBlock::parse(reader, offset, size) at the header's offset and "
+        "CachedStringBlock::from_string_block of it resolve every reference stored in the records (two more paths in the pairwise comparison), is_string_start is compared with "
+        "the block's bytes for every stored offset; schema-less access (DbcParser::parse_records, LazyDbcParser iterator + get_record, parse_records_parallel, MmapDbcFile::parser "
+        "without a schema) on the table or, when it has 8/16-bit columns, on its 32-bit columns must return the little-endian words of the file, string words resolving to the "
+        "table's text; the same records + string block wrapped by the harness in a WDB2 header (basic 32 bytes / extended 48 bytes / extended with index arrays) or a WDB5 header "
+        "(one container per table, in turn): DbcParser::parse must return the model, and lazy / parallel (handed DbcParser::data() + header() as in the crate's examples), "
+        "MmapDbcFile parser and MmapDbcFile::string_block must agree with it; key lookups on the container's eager set. "
+        "quick = 7 + 900 tables, thorough = 7 + 10000 tables plus the first 1000 again under AddressSanitizer. distinct = distinct "
         "(record count, key position/type, arrays, narrow fields, strings, string-block layout) classes among tables with at least one record.")
 
 ASSUME = ["header field count = number of columns with every array element counted (what Schema::validate requires); Bool and String occupy 4 bytes; no padding between fields",
@@ -27,6 +36,12 @@ ASSUME = ["header field count = number of columns with every array element count
           "writer histories: write_records is taken to (re)write the table at the start of the caller's stream (it seeks to 0 itself); it does not truncate, so content that was "
           "longer than the new table stays behind it - the histories only use older tables that are not longer; a stream that differs byte-wise from a single write is still "
           "accepted when it parses back to the model (counter writer_history_streams_equivalent_not_identical)",
+          "schema-less reading takes every column as a 32-bit word, so it is only judged on tables whose columns are all 32 bits wide (for other tables: on the sub-table of their 32-bit columns)",
+          "with repeated field names get_value_by_name may return the value of any field carrying the name (the code returns the first; not documented, not demanded)",
+          "containers: WDB2 header = WDBC fields + table hash, build, timestamp (32 bytes; the eight fields Wdb2Header::parse itself reads) and, for build > 12880, min id, max id, locale, copy-table size (48 bytes) "
+          "+ (max id != 0) 6 bytes per id of index/string-length arrays; WDB5 = 48-byte header followed directly by the records, as the crate models it - the field-structure block of real WDB5 files "
+          "is not modelled by the crate and not demanded; one verdict per (path, container), first difference reported; in the quick tier tables over 1000 records take part in the schema-less and "
+          "container legs one time in three",
           "Miri cannot execute mmap; the mmap path is exercised natively and, in the thorough tier, under ASan (leak detection off)"]
 
 ASAN_LIMIT = 1000
@@ -83,6 +98,12 @@ def run(tier, seed, scratch, t0):
         "values_compared": sum(n for k, n in c.items() if k.startswith("values_compared|")),
         "key_lookups": sum(n for k, n in c.items() if k.startswith("key_lookups|") and not k.endswith("no-key-field")),
         "written_files": c.get("written_files", 0),
+        "container_files": sum(n for k, n in c.items() if k.startswith("container_files|")),
+        "container_paths_vs_model": sum(n for k, n in c.items() if k.startswith("container_path_vs_model|")),
+        "schemaless_paths_vs_file": sum(n for k, n in c.items() if k.startswith("raw_path_vs_file|")),
+        "by_name_lookups": sum(n for k, n in c.items() if k.startswith("by_name_lookups|")),
+        "standalone_string_blocks": c.get("standalone_string_blocks", 0),
+        "keys_declared_by_name": c.get("schema_key_declared_by|name", 0) + c.get("schema_key_declared_by|try-name", 0),
     }
     return sup.finish(res, tier, seed, "exploration", RULE, t0, assumptions=ASSUME,
                       min_cases=100, extra_cov=extra)
